@@ -49,16 +49,16 @@ func layoutData(specs []*corpus.Spec) (string, [][]string) {
 		for k, r := range s.Rules {
 			var rhs []string
 			for _, x := range r.Rhs {
-				rhs = append(rhs, dumpName(x))
+				rhs = append(rhs, x)
 			}
 			prec := ""
 			if r.Prec != "" {
-				prec = dumpName(r.Prec)
+				prec = r.Prec
 			} else {
 				tokPrec, _, _ := specPrec(s)
 				for _, x := range r.Rhs {
 					if s.TokIndex(x) >= 0 && tokPrec[x] > 0 {
-						prec = dumpName(x)
+						prec = x
 					}
 				}
 			}
@@ -71,7 +71,7 @@ func layoutData(specs []*corpus.Spec) (string, [][]string) {
 			if t.Name == "" {
 				val = int(t.Char)
 			}
-			ts = append(ts, fmt.Sprintf("{Name: %s, Value: %d, Tag: %s, Term: true}", q(dumpName(t.Ref())), val, q(t.Tag)))
+			ts = append(ts, fmt.Sprintf("{Name: %s, Value: %d, Tag: %s, Term: true}", q(t.Ref()), val, q(t.Tag)))
 		}
 		for _, n := range s.NTs {
 			ts = append(ts, fmt.Sprintf("{Name: %s, Value: 0, Tag: %s, Term: false}", q(n), q(s.NTTag[n])))
@@ -81,7 +81,7 @@ func layoutData(specs []*corpus.Spec) (string, [][]string) {
 		for i, p := range s.Prec {
 			a := map[string]int{"left": 1, "right": 2, "nonassoc": 3}[p.Assoc]
 			for _, sym := range p.Syms {
-				pr = append(pr, fmt.Sprintf("{Name: %s, Level: %d, Assoc: %d}", q(dumpName(sym)), i+1, a))
+				pr = append(pr, fmt.Sprintf("{Name: %s, Level: %d, Assoc: %d}", q(sym), i+1, a))
 			}
 		}
 		precs = append(precs, "{"+strings.Join(pr, ", ")+"}")
